@@ -235,7 +235,8 @@ def setup_subprojects(m, spec):
     for t in m.tasks:
         if isinstance(t, BaseSubProjectTask) and t.file_path and spec.get("subproject_setup"):
             t.set_all_attributes_from_json(remove_absence_time_list=False)
-            t.set_work_amount_progress_of_unit_step_time(m.project.unit_timedelta)
+            if spec.get("subproject_setup") != "attributes-only":  # (attributes-only: duration and unit read from the file, the rate left as declared: 1.0 per parent step)
+                t.set_work_amount_progress_of_unit_step_time(m.project.unit_timedelta)
             if spec.get("sub_file_now"):
                 # the sub-project was revised after this task had been configured: the file at its path now holds another (longer) result
                 t.file_path = spec["sub_file_now"]
@@ -301,6 +302,13 @@ def models(tier, tmpdir):
     path2 = os.path.join(tmpdir, "sub-revised.json")
     ms2.project.write_simple_json(path2)
     out.append((dict(par, subproject_setup=True, sub_file_now=path2), {"rule": "TSLACK", "max_time": 12}, "subproject-configured-then-its-file-revised"))
+    out.append((dict(par, subproject_setup="attributes-only", unit_min=3), {"rule": "TSLACK", "max_time": 12}, "subproject-configured-rate-left-at-1-with-another-unit"))
+    out.append((dict(par, subproject_setup=True, unit_min=3), {"rule": "TSLACK", "max_time": 12}, "subproject-configured-with-another-unit"))
+    # a task that two components list (the second one claimed it last); both orders inside the product's component list
+    for corder in ([0, 1], [1, 0]):
+        two = dict(F.with_teams({"tasks": [{"name": "T0", "work": 2.0}, {"name": "T1", "work": 2.0}], "links": [[0, 1, "FS"]]}, "POOL2"),
+                   components=[{"name": "C0", "tasks": [0, 1]}, {"name": "C1", "tasks": [1]}], corder=corder)
+        out.append((two, {"rule": "TSLACK", "max_time": 12}, "task-appended-to-two-components:%s" % corder))
     out.append((F.big_checkpoint_spec(), {"rule": "TSLACK", "max_time": 340}, "big-checkpoint"))
     return out
 
